@@ -123,7 +123,20 @@ func runC03(c *Ctx) {
 	if !c.must(p, "(*ch.Client).handlePacket", hp != nil) {
 		return
 	}
+	// the part of the dispatch that is not handlePacket: the receive loop itself, or a method it calls
+	disp := r.Receiver
 	recvT := switchTable(r.Receiver, isCode)
+	for _, f := range core.StaticReachList(r.Receiver) {
+		if f == nil || f == hp || f == r.Receiver || f.Blocks == nil || pkgOf(f) == nil || pkgOf(f).Path() != core.PkgCh {
+			continue
+		}
+		if core.ReachesCallee(f, isClientMethod("handlePacket"), 0) {
+			if t := switchTable(f, isCode); len(t) > len(recvT) {
+				disp, recvT = f, t
+			}
+		}
+	}
+	_ = disp
 	hpT := switchTable(hp, isCode)
 	want := map[string][]string{ // code -> required callees (subset) in its case region
 		"ServerCodeData":         {"recv:decodeBlock"},
@@ -594,7 +607,7 @@ func runC03(c *Ctx) {
 	c.R.Rule(rule, "in the receive loop every success exit is control-dependent on code == ServerCodeEndOfStream")
 	func() {
 		eos := codes["ServerCodeEndOfStream"]
-		edges := core.CondEdges(r.Receiver, true, func(cond ssa.Value) (bool, bool) {
+		edges := core.PredEdges(r.Receiver, true, func(cond ssa.Value) (bool, bool) {
 			bo, ok := cond.(*ssa.BinOp)
 			if !ok || bo.Op != token.EQL || !isCode(bo.X) {
 				return false, false
